@@ -51,6 +51,7 @@ def make(seed):
             k = r.randrange(nreg); i = r.randrange(len(regs[k]))
             regs[k][i] = child
         m = {"init": [rg[0] for rg in regs], "states": {}, "table": []}
+        reach = []
         if lvl > 0:
             hk = r.choice(["none", "none", "always", "shallow"])
             if hk != "none":
@@ -75,12 +76,17 @@ def make(seed):
                     if free: st["defers"] = [r.choice(free)]
                 if st: m["states"][s] = st
             for i in range(1, len(rg)):                          # every state reachable inside its region
-                m["table"].append("%s %s %s%s%s" % (rg[r.randrange(i)], r.choice(events), rg[i], guard(), acts()))
+                reach.append("%s %s %s%s%s" % (rg[r.randrange(i)], r.choice(events), rg[i], guard(), acts()))
+                m["table"].append(reach[-1])
             if use_compl and len(rg) >= 2 and r.random() < 0.5:
                 cand = [(i, j) for i in range(len(rg)) for j in range(i + 1, len(rg)) if rg[i] not in names]
                 if cand:
                     i, j = r.choice(cand)
                     m["table"].append("%s none %s%s%s" % (rg[i], rg[j], guard(), acts()))
+        # mpl::vector holds 20 rows without reconfiguring Boost.MPL: keep the rows that make every state reachable, sample the others
+        ess = [t for t in m["table"] if t in reach]; opt = [t for t in m["table"] if t not in reach]
+        r.shuffle(opt)
+        m["table"] = ess + opt[:max(0, 14 - len(ess))]
         r.shuffle(m["table"])
         machines[mn] = m
     # explicit entries / forks from the parent into the child
